@@ -283,7 +283,7 @@ def layout(ctx: Any) -> List[Ob]:
     want_rr = RFC_RR[:4] + [('U16', 'const:0')]
     obs.append(ob(R, wr, f'writes {frame_tokens(wr)} then rdata', 'resource-record framing is name, type, class, ttl, rdlength placeholder, rdata (RFC 1035 4.1.3)', frame_tokens(wr) == want_rr and any(isinstance(c, ast.Call) and call_name(c) == 'write' for c in walk_local_ordered(wr.node))))
     wc = out.methods['_write_record_class']
-    obs.append(ob(R, wc, 'self.write_short(class_ ...)', 'the class is one 16-bit field', all(call_name(c) in ('write_short',) for c in walk_local_ordered(wc.node) if isinstance(c, ast.Call))))
+    obs.append(ob(R, wc, 'self.write_short(class_ ...)', 'the class is one 16-bit field', (lambda own: bool(own) and all(c.func.attr == 'write_short' for c in own))([c for c in walk_local_ordered(wc.node) if isinstance(c, ast.Call) and isinstance(c.func, ast.Attribute) and self_attr(c.func, wc.params[0])])))
     wt = out.methods['_write_ttl']
     obs.append(ob(R, wt, 'self._write_int(...)', 'the TTL is one 32-bit field', [call_name(c) for c in walk_local_ordered(wt.node) if isinstance(c, ast.Call) and call_name(c).startswith(('_write', 'write'))] == ['_write_int']))
     from .c13 import write_ttl_obligations
